@@ -9,6 +9,7 @@
 -/
 import Hg.Proofs.DecodeLaws
 import Hg.Proofs.CodecLaws
+import Hg.Proofs.DecodeSound
 import Hg.Generated.Schema
 
 namespace Hg.C15
@@ -44,6 +45,28 @@ theorem decode_bag_nodup (fuel : Nat) (m : List (String × Json)) (pn : Option S
     (h : decodeFrag (fuel + 1) "Bag" (.obj m) pn = some t) :
     ∃ q r vals, t.kind = .bag q r ∧ t.st = .bag vals ∧ (vals.map (·.1)).Nodup :=
   Hg.decode_bag_nodup fuel m pn t h
+
+/-- a SparselyBin document in which two keys denote the same bin index ("1" and "01") is rejected: the bins of a loaded
+SparselyBin have pairwise distinct indices -/
+theorem decode_sparse_nodup (fuel : Nat) (m : List (String × Json)) (pn : Option String) (t : Agg)
+    (h : decodeFrag (fuel + 1) "SparselyBin" (.obj m) pn = some t) :
+    ((keysOf t.kids).filter (fun k => k != .nanflow)).Nodup :=
+  Hg.decode_sparse_nodup fuel m pn t h
+
+/-- whatever is accepted is an immutable aggregator of known content types (for EVERY document, valid or not) -/
+theorem decode_immut_fixed (j : Json) (t : Agg) (h : decode j = some t) : immut t = t := Hg.decode_immut_fixed j t h
+
+theorem decode_knownCtype (j : Json) (t : Agg) (h : decode j = some t) : knownCtype t = true :=
+  Hg.decode_knownCtype j t h
+
+/-- an accepted document whose aggregator is well-formed and uniform is a fixed point of the round trip: serialising
+what was loaded and loading it again gives the same aggregator (`Hg.DecodeSound.Counter` holds the checked
+counterexamples without the two hypotheses: a Deviate with infinite `entries`, children whose own `name` disagrees
+with the name key of their parent — the regions of the open findings C15-empty-leaf-statistics and
+C15-optional-name-key) -/
+theorem decode_stable_of_good (j : Json) (t : Agg) (h : decode j = some t)
+    (hg : good t = true) (hu : uniform t = true) : decode (encode t) = some t :=
+  Hg.decode_stable_of_good j t h hg hu
 
 /-- an unknown primitive name is rejected at every level -/
 theorem decode_unknown_type (fuel : Nat) (ty : String) (j : Json) (pn : Option String)
